@@ -20,7 +20,7 @@ func driveMeta() M {
 	return M{
 		"l1": M{"bkeys": []any{"1", "2"}, "accts": []any{"gov", "p1", "p2", "c1", "u1", "u2", "u3", "x", "esc1", "esc2", "pool"}, "denoms": []any{"d1", "d2", "d3"},
 			"funded": []any{"u1", "u2", "u3"}, "amt0": int64(400), "chans": []any{"ch1"}, "devs": []any{}, "maxB": int64(2), "feeDenom": "d1"},
-		"l2": M{"accts": []any{"e1", "e2", "adm", "u1", "u2", "u3", "x", "opchild", "feecollector"}, "denoms": []any{"l2/1/d1", "l2/1/d2", "l2/1/d3"}, "funded": M{},
+		"l2": M{"accts": []any{"e1", "e2", "adm", "u1", "u2", "u3", "x", "opchild", "feecollector"}, "denoms": []any{"l2/1/d1", "l2/1/d2", "l2/1/d3"}, "funded": M{}, "premeta": []any{"l2/1/d3"}, // the L2 genesis ships bank metadata for one bridged token
 			"params": M{"admin": "adm", "execs": []any{"e1", "e2"}, "maxVals": int64(3), "histEntries": int64(1), "hookGas": "ample", "fw": []any{}}, "devs": []any{}},
 	}
 }
